@@ -818,14 +818,14 @@ def build():
            hints=[Hint("after", COVER_PROOF.replace("SRC", "self"), anchor=r"self\.archetypes\.clone\(\)"),
                   Hint("end", CLONE_PROOF.replace("DST", "vx_r").replace("SRC", "self"))],
            bind_tail=True,
-           props=["C10", "C13", "C15", "C02", "C01"]),
+           props=["C10", "C13", "C15", "C02", "C01", "C16"]),
         Fn(WC, r"^impl<Registry, Resources> Clone for World<Registry, Resources>", "clone_from", vis="pub",
            rewrites=[(r"self\.resources\.clone_from\(&source\.resources\);", "vx_clone_from(&mut self.resources, &source.resources);", "A8: user Clone of the resource list is an assumed faithful copy")],
            requires=[("pre.world_wf", "old(self).wf()"), ("pre.source_wf", "source.wf()")],
            ensures=CLONE_ENS("final(self)", "source"),
            hints=[Hint("after", COVER_PROOF.replace("SRC", "source"), anchor=r"self\.archetypes\.clone_from\(&source\.archetypes\)"),
                   Hint("end", CLONE_PROOF.replace("DST", "self").replace("SRC", "source"))],
-           props=["C10", "C13", "C15", "C02", "C01"]),
+           props=["C10", "C13", "C15", "C02", "C01", "C16"]),
     ])
     u.impl("impl<Registry, Resources> World<Registry, Resources> where Registry: crate::Registry", [
         Fn(WD, r"^impl<Registry, Resources> Default for World<Registry, Resources>", "default", ret="r", vis="pub", emit_name="default",
